@@ -38,10 +38,24 @@ def main():
         mod.run(ctx)
     except SystemExit:
         raise
-    except Exception:
-        # a crash of the harness on the real code is a tool failure, not a verdict
+    except Exception as e:
+        # An exception that comes OUT OF the library (a frame under REPO lies below the last harness frame) on an
+        # input the harness considers valid means the code no longer does what every run on the unchanged tree
+        # shows it does: reported as a failing history (the seed + tier reproduce it).  Anything else is a crash
+        # of the harness itself: a tool failure, never a verdict.
+        tb = traceback.extract_tb(e.__traceback__)
+        repo = os.path.realpath(common.REPO) + os.sep
+        harn = os.path.realpath(os.path.dirname(__file__)) + os.sep
+        idx_h = max([i for i, f in enumerate(tb) if os.path.realpath(f.filename).startswith(harn)] or [-1])
+        lib = [f for i, f in enumerate(tb) if i > idx_h and os.path.realpath(f.filename).startswith(repo)]
         traceback.print_exc()
-        return 2
+        if not lib:
+            return 2
+        ctx.spec_fail("library-exception:%s:%s" % (type(e).__name__, lib[-1].name),
+                      "the library raised %s: %s on an input of the correspondence run (valid by construction)" % (
+                          type(e).__name__, str(e)[:200]),
+                      {"how": "re-run `VERIF_SEED=%d ./check %s --tier %s`" % (seed, pid, a.tier),
+                       "traceback": traceback.format_exception(type(e), e, e.__traceback__)[-12:]})
     if a.no_lean:
         lean = {"module": "skipped", "obligations": 0, "discharged": 0, "theorems": [], "failures": [],
                 "partial": [], "build_ok": True}
